@@ -78,7 +78,7 @@ def make_input(stg, c, cfg, d, R):
         hd = {'DIRECTIO': c['directio']}
         if c['align']:
             # pad the card count to a multiple of 32 (header already 512-aligned)
-            base = 16 + (1 if cfg['nants'] > 1 else 0) + 1 + 1   # config cards + DIRECTIO + END
+            base = 15 + (1 if cfg['nants'] > 1 else 0) + 1 + 1   # config cards (+ NANTS) + DIRECTIO + END
             for k in range((-base) % 32):
                 hd[f'FILL{k:03d}'] = k
         work_raw.do_record(stg, cfg, stem, header_dict=hd)
@@ -111,6 +111,8 @@ def make_input(stg, c, cfg, d, R):
                    'BLOCSIZE': sz['block_size'], 'DIRECTIO': c['directio'], 'PKTIDX': b * sz['spb'], 'STT_IMJD': 59114, 'FOREIGN1': 2.5}
             if cfg['nants'] > 1:
                 hdr['NANTS'] = cfg['nants']
+            if c['_idx'] % 5 == 2:
+                hdr['ENDTIME'] = 59114.5          # a valid card whose keyword merely begins with E N D
             if c['align']:
                 for k in range((-(len(hdr) + 1)) % 32):
                     hdr[f'FILL{k:03d}'] = k
